@@ -161,7 +161,7 @@ JNP.int32 = int
 JNP.ndarray = SArr
 
 JNP.exp = _ew1("exp", smt.rexp, smt.cexp)
-JNP.sqrt = _ew1("sqrt", smt.rsqrt)
+JNP.sqrt = _ew1("sqrt", smt.rsqrt, smt.csqrt)
 JNP.sin = _ew1("sin", smt.rsin)
 JNP.cos = _ew1("cos", smt.rcos)
 JNP.log = _ew1("log", smt.rlog)
